@@ -160,7 +160,21 @@ def r0_named_return(text, log, name="r"):
     mt = re.search(r"\bfn\s+\w+", m)
     if not mt:
         raise Lost("R0: no fn")
-    po = m.index("(", mt.end())
+    k = mt.end()
+    while m[k].isspace():
+        k += 1
+    if m[k] == "<":
+        depth = 0
+        while True:
+            if m[k] == "<":
+                depth += 1
+            elif m[k] == ">" and m[k - 1] != "-":
+                depth -= 1
+                if depth == 0:
+                    break
+            k += 1
+        k += 1
+    po = m.index("(", k)
     pc = L.match_close(m, po)
     bo = L.depth0_find(m, pc + 1, len(m), "{;")
     arrow = m.find("->", pc, bo)
@@ -264,7 +278,22 @@ def r12_debug_assert(text, log):
     return text
 
 
-STRUCTURAL = {"R12d": r12_debug_assert, "R5": r5_for_bytes, "R7": r7_mut_self, "R0": r0_named_return, "R4": r4_format, "R12": r12_unreachable,
+def r16_drop_methods(text, log, names):
+    """R16: drop the named methods (with bodies) from a trait / impl; they are glue outside the verified kernel."""
+    for nm in names:
+        m = L.mask(text)
+        mt = re.search(r"\bfn\s+" + re.escape(nm) + r"\b", m)
+        if not mt:
+            raise Lost(f"R16: method {nm} not found")
+        k = L.depth0_find(m, mt.end(), len(m), "{;")
+        end = L.match_close(m, k) + 1 if m[k] == "{" else k + 1
+        start = text.rfind("\n", 0, mt.start()) + 1
+        log.append({"rule": "R16-drop-method", "before": f"fn {nm} (default method)", "after": ""})
+        text = text[:start] + text[end:]
+    return text
+
+
+STRUCTURAL = {"R16m": r16_drop_methods, "R12d": r12_debug_assert, "R5": r5_for_bytes, "R7": r7_mut_self, "R0": r0_named_return, "R4": r4_format, "R12": r12_unreachable,
               "R6": r6_for_enumerate, "R10": r10_drop_loop}
 
 
